@@ -368,6 +368,9 @@ pub static C06: PropDef = PropDef {
 // ---------------------------------------------------------------------------------------------
 // helpers for map-interpreter properties
 
+/// one case in this many is a "big" case (more than 2^16 elements; a few milliseconds each)
+const BIG_ONE_IN: u32 = 2500;
+
 fn union2(a: BoxedStrategy<Case>, wa: u32, b: BoxedStrategy<Case>, wb: u32) -> BoxedStrategy<Case> {
     use proptest::strategy::Union;
     Union::new_weighted(vec![(wa, a), (wb, b)]).boxed()
@@ -713,13 +716,13 @@ fn c09_strategy(tier: Tier) -> BoxedStrategy<Case> {
             1,
         ),
         4,
-        set_case_strategy(SetGen { prop: 9, weights: C09_SET_WEIGHTS, max_ops: n, generic_pct: 25, plain_pct: 40 }),
+        union2(set_case_strategy(SetGen { prop: 9, weights: C09_SET_WEIGHTS, max_ops: n, generic_pct: 25, plain_pct: 40 }), BIG_ONE_IN / 5, big_case_strategy(9), 1),
         1,
     )
 }
 
-fn c09_nontrivial(_c: &Case, o: &Outcome) -> bool {
-    o.labels & (L_ITER_CUT | L_INTOITER_CUT | L_DRAIN_CUT) != 0
+fn c09_nontrivial(c: &Case, o: &Outcome) -> bool {
+    c.kind == "big" || o.labels & (L_ITER_CUT | L_INTOITER_CUT | L_DRAIN_CUT) != 0
 }
 
 pub static C09: PropDef = PropDef {
@@ -791,13 +794,13 @@ fn c10_strategy(tier: Tier) -> BoxedStrategy<Case> {
             1,
         ),
         4,
-        set_case_strategy(SetGen { prop: 10, weights: C10_SET_WEIGHTS, max_ops: n, generic_pct: 20, plain_pct: 30 }),
+        union2(set_case_strategy(SetGen { prop: 10, weights: C10_SET_WEIGHTS, max_ops: n, generic_pct: 20, plain_pct: 30 }), BIG_ONE_IN / 5, big_case_strategy(10), 1),
         1,
     )
 }
 
-fn c10_nontrivial(_c: &Case, o: &Outcome) -> bool {
-    o.labels & (L_EXTRACT_CUT | L_DRAIN_CUT) != 0
+fn c10_nontrivial(c: &Case, o: &Outcome) -> bool {
+    c.kind == "big" || o.labels & (L_EXTRACT_CUT | L_DRAIN_CUT) != 0
 }
 
 pub static C10: PropDef = PropDef {
@@ -874,8 +877,37 @@ static C11_TABLE_WEIGHTS: &[(u16, u32)] = &[
     (t::REMOVE_NTH, 4),
 ];
 
+static C11_LAY_WEIGHTS: &[(u16, u32)] = &[
+    (ly::INSERT, 16),
+    (ly::REMOVE, 8),
+    (ly::GET, 2),
+    (ly::CLONE_SWAP, 20),
+    (ly::FILL_TO_CAPACITY, 3),
+    (ly::REMOVE_RUN, 5),
+    (ly::RETAIN, 2),
+    (ly::CLEAR, 1),
+    (ly::SHRINK_TO_FIT, 2),
+    (ly::RESERVE, 2),
+    (ly::WITH_CAPACITY, 1),
+];
+
 fn c11_strategy(tier: Tier) -> BoxedStrategy<Case> {
+    use proptest::prelude::*;
     let n = if tier == Tier::Quick { 100 } else { 300 };
+    // element layouts with an observable Clone / Drop (tracked, incl. the zero-sized one) in all three
+    // collection kinds
+    let lay = lay_case_strategy(LayGen { prop: 11, weights: C11_LAY_WEIGHTS, max_ops: n, generic_pct: 20 })
+        .prop_map(|mut c| {
+            let l = c.h("layout");
+            c.set("layout", 14 + l % 6);
+            c
+        })
+        .boxed();
+    let base = c11_base_strategy(n);
+    union2(base, 8, lay, 1)
+}
+
+fn c11_base_strategy(n: usize) -> BoxedStrategy<Case> {
     union2(
         union2(
             map_case_strategy(MapGen { prop: 11, weights: C11_WEIGHTS, max_ops: n, generic_pct: 20, plain_pct: 20 }),
@@ -917,11 +949,43 @@ pub static C11: PropDef = PropDef {
 // clone_to_other + swap = "snapshot and keep churning on the snapshot": a clone reserves nothing, so the
 // bound applies to it as well
 static C13_WEIGHTS: &[(u16, u32)] =
-    &[(m::CAPPED_CHURN, 30), (m::GET, 3), (m::GET_ABSENT, 4), (m::REMOVE, 3), (m::ENTRY, 2), (m::REMOVE_NTH, 2), (m::CLONE_TO_OTHER, 2), (m::SWAP, 2)];
+    &[
+        (m::CAPPED_CHURN, 30),
+        (m::GET, 3),
+        (m::GET_ABSENT, 4),
+        (m::REMOVE, 3),
+        (m::ENTRY, 2),
+        (m::REMOVE_NTH, 2),
+        (m::CLONE_TO_OTHER, 2),
+        (m::SWAP, 2),
+        // removal in bulk is removal too: none of these reserves capacity
+        (m::REMOVE_ALL_BUT, 2),
+        (m::DRAIN, 2),
+        (m::CLEAR, 1),
+        (m::RETAIN, 1),
+    ];
+
+// HashTable programs for the termination half of C13 (find / find_entry / entry / iter_hash of absent hashes in
+// tombstone-saturated tables); the allocation bound is only evaluated on the HashMap programs
+static C13_TABLE_WEIGHTS: &[(u16, u32)] = &[
+    (t::INSERT_UNIQUE, 16),
+    (t::FIND, 6),
+    (t::FIND_ENTRY, 12),
+    (t::ENTRY, 8),
+    (t::ITER_HASH, 10),
+    (t::REMOVE_NTH, 10),
+    (t::REMOVE_RUN, 8),
+    (t::REMOVE_ALL_BUT, 3),
+    (t::REHASH_SETUP, 4),
+    (t::FILL_TO_CAPACITY, 4),
+    (t::DRAIN, 2),
+    (t::CLEAR, 1),
+    (t::RETAIN, 2),
+];
 
 fn c13_strategy(tier: Tier) -> BoxedStrategy<Case> {
     use proptest::prelude::*;
-    (
+    let maps = (
         map_case_strategy(MapGen {
             prop: 13,
             weights: C13_WEIGHTS,
@@ -939,10 +1003,20 @@ fn c13_strategy(tier: Tier) -> BoxedStrategy<Case> {
             c.set("sweep", 64);
             c
         })
-        .boxed()
+        .boxed();
+    let tables = table_case_strategy(TableGen { prop: 13, weights: C13_TABLE_WEIGHTS, max_ops: if tier == Tier::Quick { 120 } else { 600 }, generic_pct: 20, plain_pct: 50 })
+        .prop_map(|mut c| {
+            c.set("cap", 0);
+            c
+        })
+        .boxed();
+    union2(maps, 5, tables, 1)
 }
 
 fn c13_nontrivial(c: &Case, o: &Outcome) -> bool {
+    if c.kind == "table" {
+        return o.steps >= 20 && o.labels & (L_REHASH_IN_PLACE | L_TOMBSTONE_REUSE) != 0;
+    }
     let basic = o.counters.iter().find(|x| x.0 == "basic_ops").map_or(0, |x| x.1);
     basic >= 20 * c.h("live_cap") && o.labels & (L_REHASH_IN_PLACE | L_TOMBSTONE_REUSE) != 0
 }
@@ -1250,20 +1324,28 @@ static C08_MAP_WEIGHTS: &[(u16, u32)] = &[
     (m::ENTRY, 3),
     (m::TRY_RESERVE, 3),
     (m::REMOVE_ALL_BUT, 2),
+    (m::EXTEND, 5),
 ];
 
 fn c08_strategy(tier: Tier) -> BoxedStrategy<Case> {
     let n = if tier == Tier::Quick { 80 } else { 250 };
     union2(
-        lay_case_strategy(LayGen { prop: 8, weights: C08_WEIGHTS, max_ops: n, generic_pct: 25 }),
-        2,
-        map_case_strategy(MapGen { prop: 8, weights: C08_MAP_WEIGHTS, max_ops: n, generic_pct: 25, plain_pct: 50 }),
+        union2(
+            lay_case_strategy(LayGen { prop: 8, weights: C08_WEIGHTS, max_ops: n, generic_pct: 25 }),
+            2,
+            map_case_strategy(MapGen { prop: 8, weights: C08_MAP_WEIGHTS, max_ops: n, generic_pct: 25, plain_pct: 50 }),
+            1,
+        ),
+        BIG_ONE_IN,
+        big_case_strategy(8),
         1,
     )
 }
 
 fn c08_nontrivial(c: &Case, o: &Outcome) -> bool {
-    if c.kind == "lay" {
+    if c.kind == "big" {
+        true
+    } else if c.kind == "lay" {
         o.labels & (L_X2 | L_FULL_LOAD) != 0
     } else {
         o.labels & (L_TOMBSTONE | L_FULL_LOAD) != 0
